@@ -498,6 +498,9 @@ def run(tier, replay):
         "phase order of the loop iteration is compared only in the lock-step replays; free-running logs are checked for what the property names",
         "byte-level splits inside a frame are not generated (C11); timing bounds are not claimed: hangs are detected by 8-15 s waits",
         "Dev={} models the minimal repair (per-client serialisation of handler starts); the code as written is Dev={InvocationInversion}",
+        "ShutdownEndsRun assumes every loop action completes (weak fairness of the loop): reference clients keep reading and finish the "
+        "frames they start; a peer that stops reading or stalls inside a frame can block the single-threaded loop in a blocking "
+        "write/read - outside the property's quantifier, not generated",
     ]
     return ctx.finish()
 
